@@ -63,6 +63,7 @@ type Obligation struct {
 	Inputs  []inputSym
 	Expect  string // "unsat" normally; "sat" for vacuity checks
 	Vacuity bool
+	smallModel bool
 }
 
 type inputSym struct {
@@ -147,6 +148,11 @@ type Exec struct {
 	curStmt  ast.Node
 	ghostDec []*Term
 	topReturns int
+	framed     map[string]bool
+	fnSyms     map[string]*types.Func
+	replayText *Term
+	replayHeap *Term
+	replayTerms []*Term
 	mathSites  int
 	unfolded  map[string]bool
 	zeroLinks map[string]func(r *Term) *Term
@@ -159,7 +165,7 @@ type heapLink struct {
 }
 
 func newExec(p *Prog, fi *FuncInfo) *Exec {
-	return &Exec{p: p, top: fi, axiomSet: map[string]bool{}, consts: map[string]Sort{}, funs: map[string]funSig{}, strLits: map[string]*Term{}, abstract: map[string]int{}, links: map[string]*heapLink{}, boxed: map[*types.Var]bool{}, boxDone: map[*ast.BlockStmt]bool{}, names: map[string]int{}, specRec: map[*types.Func]int{}, inlining: map[*types.Func]int{}}
+	return &Exec{p: p, top: fi, axiomSet: map[string]bool{}, consts: map[string]Sort{}, funs: map[string]funSig{}, strLits: map[string]*Term{}, abstract: map[string]int{}, links: map[string]*heapLink{}, boxed: map[*types.Var]bool{}, boxDone: map[*ast.BlockStmt]bool{}, names: map[string]int{}, specRec: map[*types.Func]int{}, inlining: map[*types.Func]int{}, fnSyms: map[string]*types.Func{}, framed: map[string]bool{}}
 }
 
 type unsupportedErr struct{ msg string }
@@ -494,14 +500,20 @@ func (x *Exec) strLen(s *Term) *Term {
 }
 
 func (x *Exec) strConcat(a, b *Term) *Term {
-	if a == x.strLits[""] {
+	empty := x.strLit("")
+	if a == empty {
 		return b
 	}
-	if b == x.strLits[""] && b != nil {
+	if b == empty {
 		return a
 	}
 	r := x.app("str.cat", SStr, a, b)
-	x.axiom(Eq(x.app("str.len", SInt, r), Add(x.strLen(a), x.strLen(b))))
+	if !r.Bound {
+		x.axiom(Eq(x.app("str.len", SInt, r), Add(x.strLen(a), x.strLen(b))))
+		// neutral element
+		x.axiom(Implies(Eq(a, empty), Eq(r, b)))
+		x.axiom(Implies(Eq(b, empty), Eq(r, a)))
+	}
 	return r
 }
 
